@@ -552,6 +552,27 @@ func init() {
 					inputs = append(inputs, pre+q)
 				}
 			}
+			// escaped DELIMITERS in every component, with and without credentials and port: the profile's steps go through
+			// the setters, whose early returns depend on what else the URL carries (a hostname setter refuses to empty
+			// the host while a port is present, ...), so one pass can unblock a change for the next
+			escSlots := [][]string{
+				{"http:", "foo:", "file:", "a:"},
+				{"//"},
+				{"", "u@", "u:p@", ":p@"},
+				{"h", "%2Fx", "%3Fx", "%23x", "x%2Fy", "%5Cx", "%40x", "x%3A8", "%25x", "%2525x", "h%2e", "%2E", "%252F", ""},
+				{"", ":8", ":80"},
+				{"/p", "", "/%2Fx", "/%3F", "/%23", "/a%2F..%2Fb", "/%2e%2e/x", "/%252e/", "/%2E/./", "/%5C", "/x%20 "},
+				{"", "?a=%26", "?%3D=%23", "?a=%2523", "?%20", "?"},
+				{"", "#%23", "#%2541", "#a%20 b", "#"},
+			}
+			et := 3
+			if c.Thorough() {
+				et = 8
+			}
+			productDev(escSlots, et, func(parts []string) { inputs = append(inputs, strings.Join(parts, "")) })
+			if c.Shard == 0 {
+				c.Count("composed_profile_inputs", int64(len(inputs)))
+			}
 			for _, cfg := range comboCfgs() {
 				for _, x := range inputs {
 					if !c.Mine() || c.Expired() {
